@@ -194,6 +194,9 @@ func contractUC(renter, host *Actor) types.UnlockConditions {
 	}
 }
 
+// FarEndBase is the first of the three shared far window ends.
+const FarEndBase = 100000
+
 // V1Leaf is the 64-byte file every generated contract stores.
 func V1Leaf(tag uint64) (leaf [64]byte) {
 	binary.LittleEndian.PutUint64(leaf[:], tag)
@@ -211,6 +214,13 @@ func v1Root(leaf [64]byte) types.Hash256 {
 // freeEnd returns a window end >= min not shared with any live contract of
 // this chain (unless SharedEnds is set).
 func (b *Builder) freeEnd(min uint64) uint64 {
+	if b.FarEnds {
+		w := FarEndBase + uint64(b.Rng.IntN(3))
+		if w < min { // a revision asks for an end above the current one
+			w = FarEndBase + (min-FarEndBase)%3
+		}
+		return w
+	}
 	if b.SharedEnds {
 		return min
 	}
@@ -309,7 +319,9 @@ func (b *Builder) V1Revise(c v1Cand, changeWindow bool) bool {
 	rev.ValidProofOutputs[1].Value = rev.ValidProofOutputs[1].Value.Add(delta)
 	rev.MissedProofOutputs[0].Value = rev.MissedProofOutputs[0].Value.Sub(delta)
 	rev.MissedProofOutputs[2].Value = rev.MissedProofOutputs[2].Value.Add(delta)
-	if changeWindow {
+	if changeWindow && b.FarEnds {
+		rev.WindowEnd = FarEndBase + (rev.WindowEnd-FarEndBase+1+uint64(b.Rng.IntN(2)))%3
+	} else if changeWindow {
 		rev.WindowStart += uint64(b.Rng.IntN(2))
 		rev.WindowEnd = b.freeEnd(max(rev.WindowEnd+1, rev.WindowStart+1))
 	}
